@@ -32,8 +32,10 @@ TRUSTED_EXTRA = ["pyorbital (SGP4, scan geometry) is an external parameter: the 
 
 # ---------------------------------------------------------------------------- helpers
 
-def pod_pass(ctx, fmt, nums, start, lats, lons, rng):
+def pod_pass(ctx, fmt, nums, start, lats, lons, rng, step=None):
     tp = timesgen.TimePass(fmt, nums, start)
+    if step is not None:        # the recorded times of day jump by step[1] ms from record step[0] on
+        tp.msec[step[0]:] += step[1]
     b = tp.build(ctx, rng)
     b.lats, b.lons = lats, lons
     return b
@@ -250,12 +252,20 @@ def angdist(lon1, lat1, lon2, lat2):
     return np.rad2deg(2 * np.arcsin(np.sqrt(np.clip(a, 0, 1))))
 
 
-def orbit_case(ctx, rng, k):
+def orbit_case(ctx, rng, k, long_stepped=False):
     fmt = rng.choice(["podGac", "podLac"])
     num, den = timesgen.period(fmt)
-    pts = 23.5 + 40.0 * np.arange(51) if fmt == "podGac" else 24.0 + 40.0 * np.arange(51)
     shape = rng.choice(["dense", "gap-near", "gap-far", "late-start"])
-    if shape == "dense":
+    if long_stepped:
+        # a LONG pass (4700 lines) whose recorded times jump by 3 s at line 1200 (a clock glitch below the 10 s repair limit;
+        # the instrument went on scanning at its rate, so the positions follow the line numbers) with two short gaps far into
+        # the pass: absent lines are recomputed at their nominal place in the pass, wherever the pass might be cut into pieces
+        fmt, shape = "podGac", "long-stepped"
+        num, den = timesgen.period(fmt)
+    pts = 23.5 + 40.0 * np.arange(51) if fmt == "podGac" else 24.0 + 40.0 * np.arange(51)
+    if shape == "long-stepped":
+        nums = [x for x in range(1, 4701) if x not in (4400, 4401, 4402, 4600, 4601, 4602)]
+    elif shape == "dense":
         nums = list(range(1, 31))
     elif shape == "gap-near":
         nums = list(range(1, 8)) + list(range(11, 30))
@@ -269,8 +279,10 @@ def orbit_case(ctx, rng, k):
     offs = timesgen.ideal_offsets(fmt, nums)
     t_nom_us = (start + offs) * 1000
     lon, lat = orbit_positions(t_nom_us, pts, num / den / 1000.0)
-    b = pod_pass(ctx, fmt, nums, start, lat, lon, rng)
+    b = pod_pass(ctx, fmt, nums, start, lat, lon, rng, step=(1199, 3000) if shape == "long-stepped" else None)
     use_table = rng.random() < 0.4
+    if shape == "long-stepped":
+        use_table = True
     if use_table:
         kind, offsets, tu, te = "shipped-table(0.70)", None, None, None
     else:
@@ -495,6 +507,8 @@ def run(ctx):
         plan_case(ctx, rng, k, drv)
     for k in range(ctx.n(10, 80)):
         orbit_case(ctx, rng, k)
+    if ctx.thorough or getattr(ctx, "escalated", False):
+        orbit_case(ctx, rng, -1, long_stepped=True)
     skip_cases(ctx, rng)
     table_cases(ctx, rng)
     for k in range(ctx.n(60, 600)):
